@@ -118,7 +118,12 @@ impl Group for RistrettoPoint {
         w: &RangeWitness,
         rng: &mut FaultRng,
     ) -> Result<RangeProof<Self>, ProofError> {
-        RangeProof::prove_with_rng(tr, st, w, rng)
+        if crate::faultrng::via_handle() {
+            let _installed = crate::faultrng::HandleInstalled::install(rng);
+            RangeProof::prove_with_rng(tr, st, w, &mut crate::faultrng::HandleRng)
+        } else {
+            RangeProof::prove_with_rng(tr, st, w, rng)
+        }
     }
 
     fn verify(
@@ -241,7 +246,12 @@ impl Group for FreePoint {
         w: &RangeWitness,
         rng: &mut FaultRng,
     ) -> Result<RangeProof<Self>, ProofError> {
-        RangeProof::prove_with_rng(tr, st, w, rng)
+        if crate::faultrng::via_handle() {
+            let _installed = crate::faultrng::HandleInstalled::install(rng);
+            RangeProof::prove_with_rng(tr, st, w, &mut crate::faultrng::HandleRng)
+        } else {
+            RangeProof::prove_with_rng(tr, st, w, rng)
+        }
     }
 
     fn verify(
